@@ -226,6 +226,7 @@ type c05sWorld struct {
 	blkByHash  map[string]int
 	desired    [][2]int // per block: default, archive
 	referenced []bool
+	archRef    []bool  // referenced by a collection with storage_classes_desired [archive]
 	flat       [][]int // flat mount number
 	nflat      int
 }
@@ -255,6 +256,7 @@ func c05sNewWorld(c *c05sCase) *c05sWorld {
 	}
 	w.desired = make([][2]int, len(c.Blocks))
 	w.referenced = make([]bool, len(c.Blocks))
+	w.archRef = make([]bool, len(c.Blocks))
 	for bi := range c.Blocks {
 		w.blkByHash[c.Blocks[bi].Hash] = bi
 	}
@@ -269,6 +271,9 @@ func c05sNewWorld(c *c05sCase) *c05sWorld {
 		}
 		for _, bi := range cl.Blocks {
 			w.referenced[bi] = true
+			if cl.Classes == 2 {
+				w.archRef[bi] = true
+			}
 			if w.desired[bi][ci] < n {
 				w.desired[bi][ci] = n
 			}
@@ -608,6 +613,8 @@ type c05sNet struct {
 	nput      int
 	problems  []string
 	nreq      int
+	// a page of collections was requested with a select list that lacks storage_classes_desired
+	selNoClasses bool
 }
 
 var c05sCollT0 = time.Date(2020, 1, 1, 0, 0, 0, 0, time.UTC)
@@ -713,6 +720,17 @@ func (n *c05sNet) serve(req *http.Request, reqBody []byte) (status int, body str
 				return 422, `{"errors":["unsupported"]}`
 			}
 			items, avail := c05sList(n.rows, q)
+			if len(q.sel) > 0 && q.limit > 0 {
+				has := false
+				for _, a := range q.sel {
+					if a == "storage_classes_desired" {
+						has = true
+					}
+				}
+				if !has {
+					n.selNoClasses = true
+				}
+			}
 			return 200, string(c05sRender(q, items, avail, n.lenient))
 		}
 	} else if s, ok := n.w.srvByHost[host]; ok && req.URL.Port() == "25107" {
@@ -1323,6 +1341,7 @@ func c05sReduce(c *c05sCase, bi int) *c05sCase {
 
 type c05sChecker struct {
 	r        *vrep.Report
+	sigCount map[string]int
 	seenSig  map[string]bool
 	sigbuf   []byte
 	tuples   []int
@@ -1336,7 +1355,7 @@ type c05sChecker struct {
 }
 
 func c05sNewChecker(r *vrep.Report) *c05sChecker {
-	k := &c05sChecker{r: r, seenSig: map[string]bool{}}
+	k := &c05sChecker{r: r, seenSig: map[string]bool{}, sigCount: map[string]int{}}
 	stateNames := []string{"unreferenced", "unreferenced,no-replica", "sufficient", "underreplicated", "no-replica"}
 	for i, sn := range stateNames {
 		for f := 0; f < 8; f++ {
@@ -1581,41 +1600,42 @@ func c05sReceived(w *c05sWorld, o *c05sObs, bi int) string {
 
 // cause names the cause class of a clause violated for block bi (it only names; it never
 // suppresses):
-//   collection-storage-classes-not-requested  the clause holds on the same cluster when the API
-//                                             fake returns storage_classes_desired although the
-//                                             collection scan did not select it
+//   collection-storage-classes-not-requested  the collection scan did not select
+//                                             storage_classes_desired, the block is referenced by
+//                                             a collection with storage_classes_desired [archive],
+//                                             and the clause holds on the same cluster when the API
+//                                             fake returns the attribute although it was not selected
 //   other                                     anything else
-func c05sCause(w *c05sWorld, bi int, clause string) string {
-	arch := false
-	for _, cl := range w.c.Colls {
-		if cl.Classes == 2 {
-			arch = true
-		}
+type c05sCauser struct {
+	w  *c05sWorld
+	o  *c05sObs
+	o2 *c05sObs
+	v2 *c05sVerdict
+}
+
+func (cc *c05sCauser) cause(bi int, clause string) string {
+	if !cc.o.net.selNoClasses || bi < 0 {
+		return "other"
 	}
-	if arch {
-		o2 := c05sRun(w, true)
-		v2 := c05sOracle(w, o2)
-		still := false
-		if bi >= 0 {
-			still = v2.Blocks[bi].has(clause)
-		} else {
-			for _, x := range v2.Run {
-				if x.Clause == clause {
-					still = true
-				}
-			}
-		}
-		if !still && o2.err == nil {
-			return "collection-storage-classes-not-requested"
-		}
+	if !cc.w.archRef[bi] {
+		return "other"
+	}
+	if cc.o2 == nil {
+		// once per run
+		cc.o2 = c05sRun(cc.w, true)
+		cc.v2 = c05sOracle(cc.w, cc.o2)
+	}
+	if !cc.v2.Blocks[bi].has(clause) && cc.o2.err == nil {
+		return "collection-storage-classes-not-requested"
 	}
 	return "other"
 }
 
 func (k *c05sChecker) report(c *c05sCase, w *c05sWorld, o *c05sObs, v *c05sVerdict, family string) {
 	r := k.r
+	cc := &c05sCauser{w: w, o: o}
 	for _, x := range v.Run {
-		sig := "sweep:" + x.Clause + ":" + c05sCause(w, -1, x.Clause)
+		sig := "sweep:" + x.Clause + ":" + cc.cause(-1, x.Clause)
 		k.r.AddExtra("violating_runs:"+sig, 1)
 		replay := interface{}(c)
 		if c.Packed != nil {
@@ -1623,17 +1643,20 @@ func (k *c05sChecker) report(c *c05sCase, w *c05sWorld, o *c05sObs, v *c05sVerdi
 		}
 		r.Violation(sig, fmt.Sprintf("%s | cluster (%s): %s | Run returned: %v | received: %s", x.Detail, family, c.String(), o.err, c05sReceived(w, o, -1)), replay)
 	}
-	// per clause: the first violating block of this run (blocks are ordered simplest first)
+	// per signature: the first violating block of this run
 	done := map[string]bool{}
 	for bi := range v.Blocks {
 		for _, x := range v.Blocks[bi].Viols {
-			if done[x.Clause] {
-				k.r.AddExtra("violating_blocks", 1)
+			k.r.AddExtra("violating_blocks", 1)
+			sig := "sweep:" + x.Clause + ":" + cc.cause(bi, x.Clause)
+			if done[sig] {
 				continue
 			}
-			done[x.Clause] = true
-			k.r.AddExtra("violating_blocks", 1)
-			sig := "sweep:" + x.Clause + ":" + c05sCause(w, bi, x.Clause)
+			done[sig] = true
+			k.sigCount[sig]++
+			if k.sigCount[sig] > 3 {
+				continue // the report keeps three cases per signature and shard
+			}
 			bv := &v.Blocks[bi]
 			detail := fmt.Sprintf("%s | %s | layout: %s | received for this block: %s | physical replication per class [default archive] before=%v after-trash-no-pull=%v desired=%v | Run returned: %v",
 				x.Detail, c.blockString(bi), c.layoutString(), c05sReceived(w, o, bi), bv.Before, bv.After, w.desired[bi], o.err)
@@ -1687,7 +1710,7 @@ func TestVerifC05Sweep(t *testing.T) {
 	// deviations = read-only flags, named device ids, replication != 1, archive class (the block
 	// states are enumerated completely inside every layout)
 	packedBound := [4][7]int{
-		1: {1: 9, 2: 9},
+		1: {1: 9, 2: 4},
 		2: {2: 9, 3: 3, 4: 2},
 		3: {3: 3, 4: 2, 5: 1, 6: 0},
 	}
@@ -1806,7 +1829,8 @@ func TestVerifC05Sweep(t *testing.T) {
 				r.AddExtra("sweep_packed_runs", 1)
 			}
 			// the same with one (colliding) timestamp for all devices counts as one more deviation
-			if dev+1 <= packedBound[nsrv][nm] && len(l.Devs) > 1 {
+			// (quick tier: only next to layouts with at most 2 deviations)
+			if dev+1 <= packedBound[nsrv][nm] && len(l.Devs) > 1 && (thorough || dev <= 2) {
 				if mine(true) {
 					c := &c05sCase{Layout: l.clone(), Collide: true, LostFile: idx%4 != 0, Packed: &c05sPacked{Thorough: thorough}}
 					k.check(c, "packed")
